@@ -139,3 +139,23 @@ def emit_clear(R):
     info = {"functions": [{"name": "DynamicConstructorDataGlobal::clearTesnors", "file": p.rel, "line": p.line, "loops": X.count_loops(b)}], "rules_fired": {k: v for k, v in R.counts.items() if v},
             "fidelity": X.fidelity(p.body, b, extra_vocab=["tensors", "begin", "before_begin", "end", "erase_after", "auto", "++", "t", "p"], slack=8)}
     return '#line %d "%s"\nvoid DynamicConstructorDataGlobal_clearTesnors(DynamicConstructorDataGlobal *self)%s\n' % (p.line, X.REPO + "/" + p.rel, b), info
+
+
+def emit_reload(R):
+    """DynamicConstructorDataGlobal::reloadPoints: rebuilds the per-tensor `loaded` flags from the stored node list after a read."""
+    ct = X.strip_comments(X.read_source(CPP))
+    (p,) = X.cut(CPP, r'void\s+DynamicConstructorDataGlobal::reloadPoints\s*\(\s*std::function<int\(int\)>\s+getNumPoints\s*\)', ct)
+    b = p.body
+    b = R.sub("R6-range-for-list", r'for\s*\(\s*auto\s*&\s*(\w+)\s*:\s*tensors\s*\)\s*\{', r'for (TensorData *\1 = self->tensors.bb.next; \1 != NULL; \1 = \1->next){', b)
+    b = R.sub("R6-range-for-list", r'for\s*\(\s*auto\s+const\s*&\s*(\w+)\s*:\s*data\s*\)\s*\{', r'for (const NodeData *\1 = self->data.bb.next; \1 != NULL; \1 = \1->next){', b)
+    b = R.sub("R5g-dummy-set", r'MultiIndexSet\s+dummy_set\(\s*num_dimensions\s*,\s*std::vector<int>\(\s*t\.tensor\s*\)\s*\)\s*;', '', b)
+    b = R.sub("R5g-generate", r'\bt\.points\s*=\s*MultiIndexManipulations::generateNestedPoints\(\s*dummy_set\s*,\s*getNumPoints\s*\)\s*;', 't->npoints = tsg_generateNestedPoints(t);', b)
+    b = R.sub("R5-bool-vector", r'\bt\.loaded\s*=\s*std::vector<bool>\(\s*\(size_t\)\s*t\.points\.getNumIndexes\(\)\s*,\s*false\s*\)\s*;', 'tsg_loaded_assign(t, (size_t) t->npoints, false);', b)
+    b = R.sub("R5g-getSlot", r'\bt\.points\.getSlot\(\s*p\.point\s*\)', 'tsg_getSlot(t, p)', b)
+    b = R.sub("R5-bool-subscript", r'\bt\.loaded\[([^\]]+)\]', r't->loaded[tsg_loaded_index(t, \1)]', b)
+    X.check_leftover(b, "reloadPoints")
+    R.require({"R6-range-for-list": 3, "R5g-generate": 1, "R5-bool-vector": 1, "R5g-getSlot": 1, "R5-bool-subscript": 1})
+    info = {"functions": [{"name": "DynamicConstructorDataGlobal::reloadPoints", "file": p.rel, "line": p.line, "loops": X.count_loops(b)}], "rules_fired": {k: v for k, v in R.counts.items() if v},
+            "fidelity": X.fidelity(p.body, b, extra_vocab=["auto", "tensors", "data", "t", "p", "MultiIndexSet", "dummy_set", "num_dimensions", "std", "vector", "int", "bool", "tensor", "points", "MultiIndexManipulations", "generateNestedPoints",
+                                                            "getNumPoints", "loaded", "getNumIndexes", "false", "getSlot", "point", "size_t", "const", "&", ":", "(", ")", "[", "]", ".", "=", ";", ","], slack=40)}
+    return '#line %d "%s"\nvoid DynamicConstructorDataGlobal_reloadPoints(DynamicConstructorDataGlobal *self)%s\n' % (p.line, X.REPO + "/" + p.rel, b), info
